@@ -189,6 +189,7 @@ func (C12) Run(ctx *sim.RunCtx, data json.RawMessage) (*sim.Outcome, error) {
 			hist = append(hist, fmt.Sprintf("%s%d", op.Pass, len(files)))
 			dir := r.newDir()
 			var paths []string
+			r.symlinks = op.Symlinks
 			for pos, fi := range files {
 				pth, err := r.place(dir, pos, fi)
 				if err != nil {
@@ -196,6 +197,7 @@ func (C12) Run(ctx *sim.RunCtx, data json.RawMessage) (*sim.Outcome, error) {
 				}
 				paths = append(paths, pth)
 			}
+			r.symlinks = false
 			if paths == nil {
 				paths = []string{}
 			}
